@@ -182,3 +182,291 @@ Proof.
   - constructor.
   - apply orb_false_iff in H. destruct H as [H1 H2]. destruct r as [t|]; [|discriminate]. cbn [app]. constructor; [reflexivity|now apply IH].
 Qed.
+
+(* ------------------------------------------------------------------ lazy_apply_spec *)
+Section LazySpec.
+Variable A : Type.
+Variable o : opts.
+Variable fn : option (list string) -> tree A -> list (option (tree A)) -> option A.
+Notation tree := (tree A).
+Notation erase_t := (erase_t A).
+Notation mo := (mo o).
+Notation keep := (fun mr : tree * option tree => match snd mr with Some t => t | None => fst mr end).
+Notation somes := (flat_map (fun r : option tree => match r with Some t => [t] | None => [] end)).
+
+(* the members of a lazy operand are its slices along its stack dim *)
+Definition wf_operand (d : nat) (op : operand A) : Prop :=
+  match op_lazy A op with
+  | Some (sd, ms) => sd = d -> ms = map (op_slice A op d) (seq 0 (nth d (op_bs A op) 0))
+  | None => True
+  end.
+
+Lemma op_unbind_slices d op l :
+  wf_operand d op -> op_unbind A d op = Ok l -> forall i x, nth_error l i = Some x -> x = op_slice A op d i.
+Proof.
+  unfold wf_operand, op_unbind. intros Hwf H i x Hi.
+  destruct (Nat.leb (List.length (op_bs A op)) d); [discriminate|].
+  assert (E : l = map (op_slice A op d) (seq 0 (nth d (op_bs A op) 0))).
+  { destruct (op_lazy A op) as [[sd ms]|].
+    - destruct (Nat.eqb d sd) eqn:Ed; inv H; [|reflexivity]. apply Nat.eqb_eq in Ed. now apply Hwf.
+    - now inv H. }
+  subst l. now apply nth_map_seq in Hi.
+Qed.
+
+Lemma unbind_all_col d : forall ops ls, Forall (wf_operand d) ops -> unbind_all A d ops = Ok ls ->
+  forall i c, col A i ls c -> c = map (fun op => op_slice A op d i) ops.
+Proof.
+  induction ops as [|op r IH]; intros ls Hwf H i c Hc; cbn [unbind_all] in H.
+  - inv H. inv Hc. reflexivity.
+  - apply bind_okL in H. destruct H as (l & Hl & H). apply bind_okL in H. destruct H as (ls' & Hls & H). inv H.
+    inv Hwf. inv Hc. cbn [map]. f_equal.
+    + eapply op_unbind_slices; eassumption.
+    + eapply IH; eassumption.
+Qed.
+
+(* what a returning call went through *)
+Definition body_outcome (con : bool) (self : lstack A) (others : list (operand A)) (out : option (lout A)) (names : option dnames)
+           (r : lres A) : Prop :=
+  exists oth rs,
+    unbind_all A (l_sd A self) others = Ok oth
+    /\ lazy_members A mo fn con [] (l_members A self) oth (out_members A out) = Ok rs
+    /\ ((r = LRNone A /\ forallb is_none (map snd rs) = true)
+        \/ (o_inplace o = true
+            /\ finish_names A names (Some (LRStack A (l_obj A self) (l_sd A self) (l_name A self) (map keep rs))) = Ok r)
+        \/ (o_inplace o = false /\ existsb is_none (map snd rs) = false
+            /\ finish_names A names (Some (LRStack A New (l_sd A self) (l_name A self) (somes (map snd rs)))) = Ok r)).
+
+Lemma lz_apply_nest_inv con self others out names r :
+  lz_apply_nest A o fn con self others out names = Ok r ->
+  l_members A self <> [] /\ refuse_inplace o names = false /\ out <> Some (OutOther A)
+  /\ ((out = None /\ exists b m, o_bs o = Some b /\ r = LRView A m /\ m_bs m = b)
+      \/ ((out <> None \/ o_bs o = None) /\ body_outcome con self others out names r)).
+Proof.
+  unfold lz_apply_nest. destruct (l_members A self) as [|m0 mrest] eqn:Em; [discriminate|].
+  destruct (refuse_inplace o names) eqn:Eref; [discriminate|].
+  intro H. split; [discriminate|]. split; [reflexivity|].
+  assert (Hbody : forall (Hside : out <> None \/ o_bs o = None),
+            bind (unbind_all A (l_sd A self) others) (fun oth =>
+            bind (lazy_members A mo fn con [] (m0 :: mrest) oth (out_members A out)) (fun rs =>
+            let rets := map snd rs in
+            if forallb is_none rets && fe_drops o then Ok (LRNone A)
+            else bind (if o_inplace o then Ok (Some (LRStack A (l_obj A self) (l_sd A self) (l_name A self) (map keep rs)))
+                       else if forallb is_none rets then Ok None
+                       else if existsb is_none rets then Raised ERuntime
+                       else Ok (Some (LRStack A New (l_sd A self) (l_name A self) (somes rets))))
+                      (finish_names A names))) = Ok r ->
+            body_outcome con self others out names r).
+  { intros _ Hb. apply bind_okL in Hb. destruct Hb as (oth & Hoth & Hb). apply bind_okL in Hb. destruct Hb as (rs & Hrs & Hb).
+    exists oth, rs. rewrite Em. split; [exact Hoth|]. split; [exact Hrs|]. cbn zeta in Hb.
+    destruct (forallb is_none (map snd rs)) eqn:Eall; cbn [andb] in Hb.
+    - destruct (fe_drops o). { inv Hb. left. split; reflexivity. }
+      destruct (o_inplace o) eqn:Ei; cbn [bind] in Hb.
+      + right. left. split; [reflexivity|exact Hb].
+      + apply finish_names_none in Hb. left. split; [exact Hb|reflexivity].
+    - destruct (o_inplace o) eqn:Ei; cbn [bind] in Hb.
+      + right. left. split; [reflexivity|exact Hb].
+      + destruct (existsb is_none (map snd rs)) eqn:Eex; [discriminate|]. cbn [bind] in Hb.
+        right. right. repeat split; assumption. }
+  destruct out as [[tc oms|]|].
+  - split; [discriminate|]. right. split; [left; discriminate|]. apply Hbody; [left; discriminate|].
+    destruct (o_bs o); exact H.
+  - discriminate.
+  - split; [discriminate|]. destruct (o_bs o) as [b|] eqn:Eb.
+    + left. split; [reflexivity|]. destruct (first_meta A (m0 :: mrest)) as [mm|]; [|discriminate]. inv H.
+      exists b, (mkMeta b match o_dev o with Some d => d | None => m_dev mm end match names with Some n => n | None => None end false).
+      repeat split; reflexivity.
+    + right. split; [right; reflexivity|]. apply Hbody; [right; reflexivity|exact H].
+Qed.
+
+Lemma front_of_apply_nest con so sm sf oth out r :
+  apply_nest A mo fn con [] so sm sf oth out None = Ok r ->
+  front A mo fn con false (Node so sm sf) oth out None = Ok r.
+Proof. intro H. unfold front. rewrite H. reflexivity. Qed.
+
+(* member i of the result of a returning call *)
+Lemma member_ref con self others oth rs i m r out :
+  Forall (wf_operand (l_sd A self)) others ->
+  unbind_all A (l_sd A self) others = Ok oth ->
+  lazy_members A mo fn con [] (l_members A self) oth (out_members A out) = Ok rs ->
+  nth_error rs i = Some (m, r) ->
+  nth_error (l_members A self) i = Some m /\
+  forall so sm sf, m = Node so sm sf -> wf_keys A sf = true ->
+    ref_apply A mo fn con (Node so sm sf) (map (fun op => op_slice A op (l_sd A self) i) others) (out_at A (out_members A out) i)
+    = ROk (option_map erase_t r).
+Proof.
+  intros Hwf Hoth Hrs Hi.
+  destruct (lazy_members_nth A mo fn _ _ _ _ _ _ Hrs) as [_ Hnth].
+  destruct (Hnth i m r Hi) as (Hm & so & sm & sf & c & E & Hc & _ & Ha). split; [exact Hm|].
+  intros so' sm' sf' E' Hk. rewrite E in E'. inv E'.
+  rewrite <- (unbind_all_col _ _ _ Hwf Hoth i c Hc).
+  apply apply_spec with (propagate := false) (names := None); [exact Hk|]. now apply front_of_apply_nest.
+Qed.
+
+Theorem lazy_apply_spec : forall con self others out names ob sd nm ms,
+  Forall (wf_operand (l_sd A self)) others ->
+  lz_apply_nest A o fn con self others out names = Ok (LRStack A ob sd nm ms) ->
+  sd = l_sd A self /\ ob = (if o_inplace o then l_obj A self else New)
+  /\ List.length ms = List.length (l_members A self)
+  /\ forall i so sm sf t,
+       nth_error (l_members A self) i = Some (Node so sm sf) -> wf_keys A sf = true -> nth_error ms i = Some t ->
+       let oth := map (fun op => op_slice A op (l_sd A self) i) others in
+       let out_i := out_at A (out_members A out) i in
+       ref_apply A mo fn con (Node so sm sf) oth out_i = ROk (Some (erase_t t))
+       \/ (o_inplace o = true /\ ref_apply A mo fn con (Node so sm sf) oth out_i = ROk None
+           /\ erase_t t = erase_t (Node so sm sf)).
+Proof.
+  intros con self others out names ob sd nm ms Hwf H.
+  destruct (lz_apply_nest_inv _ _ _ _ _ _ H) as (_ & _ & _ & [(_ & b & m & _ & E & _)|(_ & oth & rs & Hoth & Hrs & Hcase)]); [discriminate|].
+  destruct (lazy_members_nth A mo fn _ _ _ _ _ _ Hrs) as [Hlen _].
+  destruct Hcase as [(E & _)|[(Hi & Hfin)|(Hi & Hex & Hfin)]]; [discriminate| |].
+  - (* in place *)
+    apply finish_names_stack in Hfin. destruct Hfin as (nm' & ms' & E & Hsame). inv E. rewrite Hi.
+    split; [reflexivity|]. split; [reflexivity|].
+    split. { rewrite <- (Forall2_len _ _ _ Hsame), map_length. exact Hlen. }
+    intros i so sm sf t Hm Hk Ht oth' out_i.
+    destruct (Forall2_nth_r _ _ _ _ _ Hsame Ht) as (t0 & Ht0 & Eer).
+    apply nth_map_inv in Ht0. destruct Ht0 as ([m r] & Hr & Et0). cbn [fst snd] in Et0.
+    destruct (member_ref con self others oth rs i m r out Hwf Hoth Hrs Hr) as [Hm' Href].
+    rewrite Hm in Hm'. inv Hm'. specialize (Href so sm sf eq_refl Hk).
+    destruct r as [t1|]; cbn [option_map] in Href; cbn [fst snd] in *.
+    + left. unfold oth', out_i. now rewrite Eer.
+    + right. split; [reflexivity|]. split; [exact Href|exact Eer].
+  - (* a new stack *)
+    apply finish_names_stack in Hfin. destruct Hfin as (nm' & ms' & E & Hsame). inv E. rewrite Hi.
+    split; [reflexivity|]. split; [reflexivity|].
+    pose proof (flat_somes _ Hex) as Hs.
+    split. { rewrite <- (Forall2_len _ _ _ Hsame), <- (Forall2_len _ _ _ Hs), map_length. exact Hlen. }
+    intros i so sm sf t Hm Hk Ht oth' out_i. left.
+    destruct (Forall2_nth_r _ _ _ _ _ Hsame Ht) as (t0 & Ht0 & Eer).
+    destruct (Forall2_nth_r _ _ _ _ _ Hs Ht0) as (r0 & Hr0 & Er0). subst r0.
+    apply nth_map_inv in Hr0. destruct Hr0 as ([m r] & Hr & Et0). cbn [snd] in Et0. subst r.
+    destruct (member_ref con self others oth rs i m (Some t0) out Hwf Hoth Hrs Hr) as [Hm' Href].
+    rewrite Hm in Hm'. inv Hm'. specialize (Href so sm sf eq_refl Hk). cbn [option_map] in Href.
+    unfold oth', out_i. now rewrite Eer.
+Qed.
+
+(* the call returns None exactly when the reference drops every member *)
+Theorem lazy_apply_none : forall con self others out names,
+  Forall (wf_operand (l_sd A self)) others ->
+  lz_apply_nest A o fn con self others out names = Ok (LRNone A) ->
+  forall i so sm sf, nth_error (l_members A self) i = Some (Node so sm sf) -> wf_keys A sf = true ->
+    ref_apply A mo fn con (Node so sm sf) (map (fun op => op_slice A op (l_sd A self) i) others) (out_at A (out_members A out) i)
+    = ROk None.
+Proof.
+  intros con self others out names Hwf H i so sm sf Hm Hk.
+  destruct (lz_apply_nest_inv _ _ _ _ _ _ H) as (_ & _ & _ & [(_ & b & m & _ & E & _)|(_ & oth & rs & Hoth & Hrs & Hcase)]); [discriminate|].
+  destruct (lazy_members_nth A mo fn _ _ _ _ _ _ Hrs) as [Hlen _].
+  destruct Hcase as [(_ & Hall)|[(Hi & Hfin)|(Hi & Hex & Hfin)]].
+  - assert (Hlt : i < List.length rs). { rewrite Hlen. apply nth_error_Some. congruence. }
+    destruct (nth_error rs i) as [[m r]|] eqn:Hr; [|apply nth_error_None in Hr; lia].
+    destruct (member_ref con self others oth rs i m r out Hwf Hoth Hrs Hr) as [Hm' Href].
+    rewrite Hm in Hm'. inv Hm'. specialize (Href so sm sf eq_refl Hk).
+    rewrite forallb_forall in Hall. assert (Hn : is_none r = true).
+    { apply Hall. apply in_map_iff. exists (Node so sm sf, r). split; [reflexivity|]. eapply nth_error_In; eassumption. }
+    destruct r; [discriminate|exact Href].
+  - apply finish_names_stack in Hfin. destruct Hfin as (? & ? & E & _). discriminate.
+  - apply finish_names_stack in Hfin. destruct Hfin as (? & ? & E & _). discriminate.
+Qed.
+
+(* refusals: the option points and operands that the lazy code rejects, or hands to the stacked view *)
+Theorem lazy_refusals : forall con self others out names,
+  l_members A self <> [] ->
+  (refuse_inplace o names = true -> lz_apply_nest A o fn con self others out names = Raised EValue)
+  /\ (refuse_inplace o names = false -> out = Some (OutOther A) ->
+        lz_apply_nest A o fn con self others out names = Raised EValue)
+  /\ (forall r, lz_apply_nest A o fn con self others out names = Ok r ->
+        refuse_inplace o names = false /\ out <> Some (OutOther A)
+        /\ ((exists m, r = LRView A m) <-> (out = None /\ o_bs o <> None))
+        /\ (forall m, r = LRView A m -> Some (m_bs m) = o_bs o))
+  /\ (o_inplace o = false -> forall oth rs,
+        refuse_inplace o names = false -> out <> Some (OutOther A) -> (out <> None \/ o_bs o = None) ->
+        unbind_all A (l_sd A self) others = Ok oth ->
+        lazy_members A mo fn con [] (l_members A self) oth (out_members A out) = Ok rs ->
+        existsb is_none (map snd rs) = true -> forallb is_none (map snd rs) = false ->
+        lz_apply_nest A o fn con self others out names = Raised ERuntime).
+Proof.
+  intros con self others out names Hne. split; [|split; [|split]].
+  - intro Hr. unfold lz_apply_nest. destruct (l_members A self); [now elim Hne|]. now rewrite Hr.
+  - intros Hr Ho. unfold lz_apply_nest. destruct (l_members A self); [now elim Hne|]. rewrite Hr. subst out. reflexivity.
+  - intros r H. pose proof (lz_apply_nest_inv _ _ _ _ _ _ H) as Hinv.
+    destruct Hinv as (_ & Hr & Ho & Hcase). split; [exact Hr|]. split; [exact Ho|].
+    assert (Hnoview : forall m, body_outcome con self others out names (LRView A m) -> False).
+    { intros m (oth & rs & _ & _ & Hc). destruct Hc as [(E & _)|[(_ & Hfin)|(_ & _ & Hfin)]]; [discriminate| |];
+        apply finish_names_stack in Hfin; destruct Hfin as (? & ? & E & _); discriminate. }
+    split; [split|].
+    + intros (m & E). subst r. destruct Hcase as [(Hon & b & m' & Eb & _)|(_ & Hb)].
+      * split; [exact Hon|congruence].
+      * exfalso. eapply Hnoview; eassumption.
+    + intros (Hon & Hb). destruct Hcase as [(_ & b & m' & _ & E & _)|([Hc|Hc] & _)]; [eauto|now elim Hc|now elim Hb].
+    + intros m E. subst r. destruct Hcase as [(Hon & b & m' & Eb & E & Hm)|(_ & Hb)].
+      * inv E. now rewrite Eb.
+      * exfalso. eapply Hnoview; eassumption.
+  - intros Hi oth rs Hr Ho Hside Hoth Hrs Hex Hall. unfold lz_apply_nest.
+    destruct (l_members A self) eqn:Em; [now elim Hne|]. rewrite Hr.
+    assert (Hb : bind (unbind_all A (l_sd A self) others) (fun oth =>
+            bind (lazy_members A mo fn con [] (t :: l) oth (out_members A out)) (fun rs =>
+            let rets := map snd rs in
+            if forallb is_none rets && fe_drops o then Ok (LRNone A)
+            else bind (if o_inplace o then Ok (Some (LRStack A (l_obj A self) (l_sd A self) (l_name A self) (map keep rs)))
+                       else if forallb is_none rets then Ok None
+                       else if existsb is_none rets then Raised ERuntime
+                       else Ok (Some (LRStack A New (l_sd A self) (l_name A self) (somes rets))))
+                      (finish_names A names))) = Raised ERuntime).
+    { rewrite Hoth. cbn [bind]. rewrite Hrs. cbn [bind]. cbn zeta. rewrite Hall, Hi, Hex. reflexivity. }
+    destruct out as [[tc oms|]|]; [destruct (o_bs o); exact Hb|now elim Ho|].
+    destruct Hside as [Hs|Hs]; [now elim Hs|]. rewrite Hs. exact Hb.
+Qed.
+
+End LazySpec.
+
+(* ------------------------------------------------------------------ apply_ on a lazy stack *)
+From TD Require Import Proofs.C20_FrameP.
+Section LazyApply_.
+Variable A : Type.
+Variable o : opts.
+Variable fn : option (list string) -> tree A -> list (option (tree A)) -> option A.
+Notation tree := (tree A).
+Notation erase_t := (erase_t A).
+
+Lemma apply__members_nth : forall members others con names ms',
+  apply__members A o fn con names members others = Ok ms' ->
+  List.length ms' = List.length members /\
+  forall i t, nth_error ms' i = Some t ->
+    exists m oth r, nth_error members i = Some m /\ col A i others oth
+      /\ front A (ao o) fn con true m oth None names = Ok r /\ t = match r with Some x => x | None => m end.
+Proof.
+  induction members as [|m ms IH]; intros others con names ms' H; cbn [apply__members] in H.
+  - destruct (forallb (@nil_b tree) others); [|discriminate]. inv H. split; [reflexivity|]. intros i t Hi. destruct i; discriminate.
+  - destruct (heads A others) as [oth0|] eqn:Eh; [|discriminate].
+    apply bind_okL in H. destruct H as (r0 & Hr0 & H). apply bind_okL in H. destruct H as (rs & Hrs & H). inv H.
+    destruct (IH _ _ _ _ Hrs) as [Hlen Hnth]. split; [cbn [List.length]; now rewrite Hlen|].
+    intros i t Hi. destruct i as [|j]; cbn [nth_error] in Hi |- *.
+    + inv Hi. exists m, oth0, r0. repeat split; try assumption. now apply heads_col.
+    + destruct (Hnth j t Hi) as (m' & oth & r & Hm & Hc & Hf & Et). exists m', oth, r. repeat split; try assumption. now apply col_tl.
+Qed.
+
+Theorem lazy_apply__spec : forall con names self others ob sd nm ms,
+  Forall (wf_operand A (l_sd A self)) others ->
+  lz_apply_ A o fn con names self others = Ok (LRStack A ob sd nm ms) ->
+  ob = l_obj A self /\ sd = l_sd A self /\ nm = l_name A self /\ List.length ms = List.length (l_members A self)
+  /\ forall i so sm sf t,
+       nth_error (l_members A self) i = Some (Node so sm sf) -> wf_keys A sf = true -> nth_error ms i = Some t ->
+       let oth := map (fun op => op_slice A op (l_sd A self) i) others in
+       shape_t A t = shape_t A (Node so sm sf)
+       /\ (ref_apply A (ao o) fn con (Node so sm sf) oth None = ROk (Some (erase_t t))
+           \/ (ref_apply A (ao o) fn con (Node so sm sf) oth None = ROk None /\ t = Node so sm sf)).
+Proof.
+  intros con names self others ob sd nm ms Hwf H. unfold lz_apply_ in H.
+  apply bind_okL in H. destruct H as (oth & Hoth & H). apply bind_okL in H. destruct H as (ms' & Hms & H). inv H.
+  destruct (apply__members_nth _ _ _ _ _ Hms) as [Hlen Hnth].
+  repeat split; try reflexivity; try assumption.
+  - destruct (Hnth i t H1) as (m & c & r & Hm & Hc & Hf & Et). rewrite H in Hm. inv Hm.
+    destruct r as [x|]; [|reflexivity].
+    eapply (inplace_shape A (ao o) fn); [reflexivity|exact H0|exact Hf].
+  - destruct (Hnth i t H1) as (m & c & r & Hm & Hc & Hf & Et). rewrite H in Hm. inv Hm.
+    rewrite <- (unbind_all_col A _ _ _ Hwf Hoth i c Hc).
+    pose proof (apply_spec A (ao o) fn con true so sm sf c None names r H0 Hf) as Href.
+    destruct r as [x|]; cbn [option_map] in Href; [left; exact Href|right; split; [exact Href|reflexivity]].
+Qed.
+
+End LazyApply_.
